@@ -141,10 +141,13 @@ theorem tieA_sx1272_set_modulation_params (radio : Gen.PhyEnc1272.Sx127x) (cfg :
   cases hsf : spreading_factor_value sf with
   | none => simp [view, radioErr]
   | some vsf =>
+  have hsfb : 6 ≤ vsf ∧ vsf ≤ 12 := by cases sf <;> cases hsf <;> decide
+  have hbwb : 0 ≤ vbw ∧ vbw ≤ 2 := by cases bw <;> cases hbw <;> decide
   tie_rd
   cases hcr : coding_rate_value cr with
   | none => simp [view, radioErr]
   | some vcr =>
+  have hcrb : 1 ≤ vcr ∧ vcr ≤ 4 := by cases cr <;> cases hcr <;> decide
   tie_wr
   · cases bw <;> cases hbw <;> cases cr <;> cases hcr <;> tie_val []
   tie_rd
@@ -229,14 +232,15 @@ theorem tieA_sx1276_set_modulation_params (cfg : Sx127x.Config) (hc : cfg.chip =
   cases hcr : coding_rate_denominator_value cr with
   | none => simp [view, radioErr]
   | some vcr =>
+  have hsfb : 6 ≤ vsf ∧ vsf ≤ 12 := by cases sf <;> cases hsf <;> decide
+  have hbwb : 0 ≤ vbw ∧ vbw ≤ 9 := by cases bw <;> cases hbw <;> decide
   tie_rd
   tie_wr
   · cases sf <;> cases hsf <;> tie_val []
   tie_rd
   tie_wr
   · cases bw <;> cases hbw <;> tie_val []
-  have hck : Rt.ck .u8 (vcr - 4) = some (vcr - 4) := by cases cr <;> cases hcr <;> rfl
-  tie_norm [hck]
+  have hcrb : 5 ≤ vcr ∧ vcr ≤ 8 := by cases cr <;> cases hcr <;> decide
   tie_rd
   tie_wr
   · cases cr <;> cases hcr <;> tie_val []
